@@ -67,6 +67,35 @@ def show(t):
     return "%s(%s)" % (k, ", ".join(show(x) if isinstance(x, tuple) else repr(x) for x in t[1:]))
 
 
+def _is_str(t):
+    return (t[0] == "const" and isinstance(t[1], str)) or t[0] == "fstr"
+
+
+def mk_concat(parts):
+    """string concatenation in one normal form, whether written with +, an f-string or both"""
+    flat = []
+    for p in parts:
+        if p[0] == "fstr":
+            flat.extend(p[1])
+        elif p[0] == "fmt" and p[1][0] == "fstr":
+            flat.extend(p[1][1])
+        elif p[0] == "fmt" and p[1][0] == "const" and isinstance(p[1][1], str):
+            flat.append(p[1])
+        elif p[0] == "const" and isinstance(p[1], str):
+            flat.append(p)
+        else:
+            flat.append(p if p[0] == "fmt" else ("fmt", p))
+    out = []
+    for p in flat:
+        if out and out[-1][0] == "const" and p[0] == "const":
+            out[-1] = C(out[-1][1] + p[1])
+        elif not (p[0] == "const" and p[1] == ""):
+            out.append(p)
+    if len(out) == 1 and out[0][0] == "const":
+        return out[0]
+    return ("fstr", tuple(out))
+
+
 def mk_not(x):
     if x[0] == "not":
         return x[1]
@@ -113,6 +142,8 @@ class Ctx:
                     if any(_u(d) == "staticmethod" for d in n.decorator_list):
                         self.static.add(n.name)
         self.lazy_wrappers = {"delayed"}         # delayed(f)(args) is f(args), run later
+        # idempotent set-up a value helper may do conditionally (create the directory it names)
+        self.droppable = {"os.makedirs", "os.path.exists", "os.path.isdir", "os.path.join", "str"}
         self.consts = {}
         for n in mod.body:
             if isinstance(n, ast.Assign) and len(n.targets) == 1 and isinstance(n.targets[0], ast.Name):
@@ -153,6 +184,7 @@ class Exec:
     def __init__(self, ctx, loop_binder=None):
         self.ctx = ctx
         self.loop_binder = loop_binder       # (for statement, iterable term) -> {name: term} or None
+        self.yield_stack = []                # consumers of the generators being inlined
 
     # ---------------------------------------------------------------- expressions
     def ev(self, e, env, eff):
@@ -193,9 +225,11 @@ class Exec:
                     parts.append(("fmt", v))
                 else:
                     parts.append(self.ev(p, env, eff))
-            return ("fstr", tuple(parts))
+            return mk_concat(parts)
         if isinstance(e, ast.BinOp):
             a, b = self.ev(e.left, env, eff), self.ev(e.right, env, eff)
+            if isinstance(e.op, ast.Add) and (_is_str(a) or _is_str(b)):
+                return h(mk_concat([a, b]))
             return h(("add", a, b) if isinstance(e.op, ast.Add) else ("binop", type(e.op).__name__, a, b))
         if isinstance(e, ast.UnaryOp) and isinstance(e.op, ast.Not):
             return mk_not(self.ev(e.operand, env, eff))
@@ -226,9 +260,30 @@ class Exec:
             f = lambda x: NONE if x is None else self.ev(x, env, eff)
             return ("slice", f(e.lower), f(e.upper), f(e.step))
         if isinstance(e, ast.Subscript):
-            return h(("sub", self.ev(e.value, env, eff), self.ev(e.slice, env, eff)))
+            base, idx = self.ev(e.value, env, eff), self.ev(e.slice, env, eff)
+            if base[0] == "dict" and idx[0] == "const":
+                hits = [v for k, v in base[1] if k == idx]
+                if len(hits) == 1:
+                    return hits[0]                       # lookup in a literal table
+            if base[0] in ("tuple", "list") and idx[0] == "const" and isinstance(idx[1], int) \
+                    and not isinstance(idx[1], bool) and -len(base[1]) <= idx[1] < len(base[1]):
+                return base[1][idx[1]]
+            return h(("sub", base, idx))
         if isinstance(e, (ast.ListComp, ast.GeneratorExp)):
             return self._comp(e, env, eff)
+        if isinstance(e, ast.DictComp):
+            if len(e.generators) != 1 or e.generators[0].ifs:
+                _fail("dict comprehension form", e)
+            g = e.generators[0]
+            it = self.ev(g.iter, env, eff)
+            if it[0] not in ("tuple", "list"):
+                _fail("dict comprehension over something else than a literal tuple", e)
+            items = []
+            for item in it[1]:
+                e2 = dict(env)
+                self._bind_target(g.target, item, e2)
+                items.append((self.ev(e.key, e2, eff), self.ev(e.value, e2, eff)))
+            return ("dict", tuple(items))
         if isinstance(e, ast.Call):
             return self._call(e, env, eff)
         if isinstance(e, ast.Starred):
@@ -335,6 +390,18 @@ class Exec:
             t = t[2]
         return t
 
+    def _is_value_helper(self, e, env):
+        """can this helper call be evaluated to ONE value (straight-line effects, or a conditional
+        without effects that matter)?  Otherwise its execution tree is grafted into the caller's."""
+        saved = (self.ctx.fresh, list(self.yield_stack))
+        try:
+            self._call(e, env, [])
+            return True
+        except Unsupported:
+            return False
+        finally:
+            self.ctx.fresh, self.yield_stack = saved[0], saved[1]
+
     def call_helper(self, hp, e, env, eff, kr):
         fn, drop_self = hp
         if self.ctx.depth > 6:
@@ -362,6 +429,8 @@ class Exec:
         _fail("helper does not return a value here", where)
 
     def _pure(self, node, where):
+        while node[0] == "eff" and node[1][0] == "call" and show(node[1][1]) in self.ctx.droppable:
+            node = node[2]
         if node[0] == "ret":
             return node[1]
         if node[0] == "if":
@@ -391,6 +460,8 @@ class Exec:
                 _fail("yield form", s)
             eff = []
             v = self.ev(s.value.value, env, eff)
+            if self.yield_stack:
+                return _chain(eff, self.yield_stack[-1](v, lambda: nxt(env)))
             return _chain(eff + [("yield", v)], nxt(env))
         if isinstance(s, ast.Expr):
             eff = []
@@ -400,7 +471,8 @@ class Exec:
             if len(s.targets) != 1:
                 _fail("chained assignment", s)
             tgt = s.targets[0]
-            if isinstance(s.value, ast.Call) and self._helper_of(s.value) and isinstance(tgt, (ast.Name, ast.Tuple)):
+            if isinstance(s.value, ast.Call) and self._helper_of(s.value) and isinstance(tgt, (ast.Name, ast.Tuple)) \
+                    and not self._is_value_helper(s.value, env):
                 eff = []
 
                 def k(v, tgt=tgt):
@@ -439,7 +511,8 @@ class Exec:
                 return _chain(eff, nxt(env))
             _fail("augmented assignment target", s)
         if isinstance(s, ast.Return):
-            if s.value is not None and isinstance(s.value, ast.Call) and self._helper_of(s.value):
+            if s.value is not None and isinstance(s.value, ast.Call) and self._helper_of(s.value) \
+                    and not self._is_value_helper(s.value, env):
                 eff = []
                 node = self.call_helper(self._helper_of(s.value), s.value, env, eff, kr)
                 return _chain(eff, node)
@@ -470,6 +543,8 @@ class Exec:
         if isinstance(s, ast.For):
             if s.orelse:
                 _fail("for/else", s)
+            if isinstance(s.iter, ast.Call) and self._helper_of(s.iter) and _is_generator(self._helper_of(s.iter)[0]):
+                return self._for_generator(s, rest, env, kf, kr, kc)
             eff = []
             it = self.ev(s.iter, env, eff)
             if it[0] in ("tuple", "list") and len(it[1]) <= 8:
@@ -492,6 +567,49 @@ class Exec:
             eff.append(("for", it, _target_names(s.target), body, lv))
             return _chain(eff, nxt(e3))
         _fail("unsupported statement", s)
+
+    def _for_generator(self, s, rest, env, kf, kr, kc):
+        """`for x in self._gen(...): body` with _gen a generator helper: the generator is inlined and
+        the loop body runs at each of its yields (so a private generator and the same loops written
+        out in the caller give the same tree)"""
+        hp = self._helper_of(s.iter)
+        fn, drop_self = hp
+        eff = []
+        args, kws = self._args(s.iter, env, eff)
+        env2 = self.bind_call(fn, drop_self, args, kws, env, eff, fn.name)
+        if drop_self:
+            env2["self"] = env.get("self", ("self",))
+        outer = self.yield_stack
+
+        def on_yield(v, resume):
+            e2 = dict(env)
+            self._bind_target(s.target, v, e2)
+            saved, self.yield_stack = self.yield_stack, list(outer)
+            try:
+                # `continue` and falling off the end of the body resume the generator
+                return self.run(list(s.body), e2, lambda _e: resume(), kr, lambda _e: resume())
+            finally:
+                self.yield_stack = saved
+
+        def done(_v=None):
+            e3 = dict(env)
+            for n in ast.walk(s):
+                if isinstance(n, ast.Name) and isinstance(n.ctx, ast.Store):
+                    e3[n.id] = ("afterloop", n.id, id(s))
+            saved, self.yield_stack = self.yield_stack, list(outer)
+            try:
+                return self.run(rest, e3, kf, kr, kc)
+            finally:
+                self.yield_stack = saved
+
+        self.ctx.depth += 1
+        self.yield_stack = list(outer) + [on_yield]
+        try:
+            node = self.run(_body(fn), env2, lambda _e: done(), done)
+        finally:
+            self.yield_stack = outer
+            self.ctx.depth -= 1
+        return _chain(eff, node)
 
     def _phi(self, s, c, env):
         """`if c: x = a [else: x = b]` with effect-free values: the same as x = a if c else b"""
@@ -543,6 +661,13 @@ class Exec:
 
     def run_function(self, fn, env):
         return self.run(_body(fn), env, lambda _e: ("ret", NONE), lambda v: ("ret", v))
+
+
+def _is_generator(fn):
+    for n in ast.walk(fn):
+        if isinstance(n, (ast.Yield, ast.YieldFrom)):
+            return True
+    return False
 
 
 def _target_names(t):
@@ -619,8 +744,25 @@ def leaves(node, path=()):
         yield [], [], node
 
 
+UNSAFE_ROOTS = {"shutil", "open", "dump", "load", "joblib", "pickle", "subprocess", "sys", "exec", "eval"}
+
+
+def _contains(t, x):
+    if t == x:
+        return True
+    return isinstance(t, tuple) and any(_contains(y, x) for y in t)
+
+
+def _call_root(t):
+    while t[0] in ("attr", "sub", "call"):
+        t = t[1]
+    return t
+
+
 def straight(node, what, neutral=()):
-    """a tree without branching -> (effects without the neutral ones, terminal)"""
+    """a tree without branching -> (effects without the neutral ones, terminal).  A call whose result
+    only feeds a later operation or the returned value (a file name being put together, ...) is
+    part of that operation's term and is not listed on its own - unless it could touch files."""
     effs = []
     while node[0] == "eff":
         if not is_neutral(node[1], neutral):
@@ -628,7 +770,15 @@ def straight(node, what, neutral=()):
         node = node[2]
     if node[0] == "if":
         _fail("%s: unexpected branching on %s" % (what, show(node[1])))
-    return effs, node
+    out = []
+    for i, e in enumerate(effs):
+        used = any(_contains(o, e) for o in effs[i + 1:]) or (len(node) > 1 and _contains(node[1], e))
+        r = _call_root(e) if e[0] == "call" else None
+        safe = e[0] == "call" and not (r[0] == "global" and r[1] in UNSAFE_ROOTS) and \
+            not (r == ("global", "os") and not show(e[1]).startswith("os.path."))
+        if not (used and safe and e[0] == "call"):
+            out.append(e)
+    return out, node
 
 
 def fn_of(term):
